@@ -40,6 +40,9 @@ type GenInput struct {
 	Config  string `json:"config,omitempty"`
 	Package string `json:"package,omitempty"`
 	Dir     string `json:"dir,omitempty"` // working directory for this generation (the spec path may be relative to it)
+	// Overlay: files (by base name) that have this content instead of what is on disk: the same location read at
+	// another time (a document that was edited between two generations of one process)
+	Overlay map[string]string `json:"overlay,omitempty"`
 }
 
 // Scenario is one complete, explicit simulated run.
@@ -146,7 +149,17 @@ func generate(in GenInput, fs *recFS) error {
 			return errors.Wrap(err, "load config")
 		}
 	}
-	data, err := opts.SetLocation(in.Spec, gen.RemoteOptions{})
+	var remote gen.RemoteOptions
+	if len(in.Overlay) > 0 {
+		overlay := in.Overlay
+		remote.ReadFile = func(p string) ([]byte, error) {
+			if c, ok := overlay[filepath.Base(p)]; ok {
+				return []byte(c), nil
+			}
+			return os.ReadFile(p)
+		}
+	}
+	data, err := opts.SetLocation(in.Spec, remote)
 	if err != nil {
 		return errors.Wrap(err, "resolve spec")
 	}
